@@ -113,3 +113,39 @@ def merge_strace(path):
     for tid, rest in pending.items():      # killed while inside the call
         merged.append(tid + "    " + rest + " = ?")
     return merged
+
+
+# ---- valgrind memcheck slices (thorough tiers): the shim runs under memcheck, reports are collected from its log files
+def memcheck_wrapper(scratch):
+    import os
+    d = os.path.join(scratch, "memcheck")
+    os.makedirs(d, exist_ok=True)
+    return ["valgrind", "--tool=memcheck", "--error-exitcode=0", "--num-callers=40", "--leak-check=no", "--undef-value-errors=yes",
+            "--log-file=%s/vg.%%p.log" % d], d
+
+
+def memcheck_reports(logdir):
+    """returns (list of {kind, first_agent_frame, block}, summary lines). A report = one '==pid== <Kind>' block with a stack."""
+    import glob, re
+    KINDS = ("Invalid read", "Invalid write", "Invalid free", "Mismatched free", "Conditional jump or move depends on uninitialised", "Use of uninitialised value",
+             "Syscall param", "Source and destination overlap", "Process terminating", "Jump to the invalid address", "Argument ")
+    reports, summaries = [], []
+    for f in sorted(glob.glob(logdir + "/vg.*.log")):
+        lines = [re.sub(r"^==\d+== ?", "", l.rstrip("\n")) for l in open(f, errors="replace")]
+        i = 0
+        while i < len(lines):
+            l = lines[i]
+            if l.startswith("ERROR SUMMARY"):
+                summaries.append(l)
+            if any(l.startswith(k) for k in KINDS):
+                blk = [l]
+                j = i + 1
+                while j < len(lines) and lines[j].strip():
+                    blk.append(lines[j]); j += 1
+                frame = next((b.strip() for b in blk[1:] if any(t in b for t in ("proxy_agent", "agentlib", "gpa_shim", "extlib"))), blk[1].strip() if len(blk) > 1 else "")
+                frame = re.sub(r"^(at|by) 0x[0-9A-Fa-f]+: ", "", frame)
+                reports.append({"kind": l.split(" of size")[0][:60], "first_agent_frame": frame[:200], "block": blk[:25]})
+                i = j
+            else:
+                i += 1
+    return reports, summaries
